@@ -74,3 +74,4 @@ import Bmc.Proofs.EndToEnd.SessionC01
 #print axioms Bmc.Proofs.EndToEnd.generated_newV2Session_live
 #print axioms Bmc.Proofs.EndToEnd.generated_newV2Session_against_spec_bmc
 #print axioms Bmc.Proofs.EndToEnd.generated_SendCommand_answered
+#print axioms Bmc.Proofs.EndToEnd.generated_all_commands_answered
